@@ -429,6 +429,23 @@ class Gen:
                     self.add("tr", "scanseq m=tmmseq nstr=%d idx=%d seq=%s text=%s buf=%s buf2=%s%s" % (
                         nstr, idx, seq, hx("\n".join(rules)), benign, hostile, self.L("YR_MAX_STRING_MATCHES")))
 
+    def config_round_trip(self):
+        # every configuration key, boundary values of its type, through the untyped and the typed accessors
+        if self.explicit:
+            return
+        from translators import limits as tl
+        import re as _re
+        gen = open(os.path.join(core.LEAN, "YaraModel", "Gen", "Limits.lean")).read()
+        keys = _re.findall(r'⟨"(YR_CONFIG_\w+)", (\d+), (\d+), (\d+), (\d+), (\d+), (\d+), (\d+)⟩', gen)
+        for name, idx, sm, sc_, gm, gc, ts, tg in keys:
+            bits = int(ts) or 32
+            if bits == 32:
+                vals = [0, 1, 2, 2 ** 31 - 1, 2 ** 31, 2 ** 32 - 1, 16384, 10000, 512] + [self.r.randint(0, 2 ** 32 - 1) for _ in range(4)]
+            else:
+                vals = [0, 1, 4096, 2 ** 31, 2 ** 32 - 1, 2 ** 32, 2 ** 32 + 1, 2 ** 32 + 4096, 2 ** 33, 2 ** 63, 2 ** 64 - 1, 1073741824] + \
+                       [self.r.randint(0, 2 ** 64 - 1) for _ in range(4)]
+            self.add("cf", "cfg key=%s bits=%d name=%s v=%s" % (idx, bits, name, ",".join(map(str, vals))))
+
     def block_timeouts(self):
         # multi-block scans with blocks far smaller than the clock stride: the deadline must be noticed at a block boundary
         if self.explicit:
@@ -517,20 +534,43 @@ class Gen:
             rules = []
             for i in range(nr):
                 nm = ("a%d" if self.r.random() < 0.5 else "b%d") % i
-                rules.append((nm, "$s%d" % i, self.r.choice(toks[:3]), self.r.choice([0, 1, L - 1, L, L + 1, self.r.randint(0, L + 2)])))
+                # 1-3 strings per rule, so that string indexes and rule indexes differ
+                for j in range(self.r.choice([1, 1, 2, 3])):
+                    rules.append((nm, "$s%d_%d" % (i, j), self.r.choice(toks[:3]), self.r.choice([0, 1, L - 1, L, L + 1, self.r.randint(0, L + 2)])))
             segs = []
             for _ in range(self.r.randint(1, 6)):
                 segs.append((self.r.choice(toks), self.r.choice([0, 1, 2, L - 1, L, L + 1, L + 3, self.r.randint(0, 2 * L)])))
             cb = self.r.choice("cccae")
-            if cb != "c":
+            if cb != "c" and len({r_[2] for r_ in rules}) < len(rules):
                 # an aborting callback sees only the first string that hits the cap; which of several strings with the
                 # same text is verified first at one offset is not part of the property: keep the texts distinct
                 rules = [(n, sid, toks[i % 4], k) for i, (n, sid, _, k) in enumerate(rules[:4])]
             self._match_case(rules, segs, cb, lk, self.r.choice([1, 1, 2]))
+        # directed: rule 0 has two strings (a victim that occurs only AFTER the limit was hit), the overflowing string is the
+        # first/second string of rule 1 or 2 (string index != rule index); exactly one warning, the others keep matching
+        for noisy_rule in (1, 2):
+            for pos in (0, 1):
+                for n in (L - 1, L, L + 1, L + 2, 3 * L):
+                    rules = [("b0", "$h", "wxyz", 1), ("b0", "$t", "0123", 2)]
+                    for r_ in range(1, noisy_rule + 1):
+                        strs = [("a%d" % r_, "$p%d_%d" % (r_, j), "QRST" if (r_ != noisy_rule or j != pos) else "abcd", 0) for j in range(2)]
+                        rules += strs
+                    segs = [("wxyz", 1), ("abcd", n), ("0123", 2), ("QRST", 2), ("wxyz", 1), ("abcd", 1)]
+                    self._match_case(rules, segs, "c", lk, self.r.choice([1, 2]))
 
     def _match_case(self, rules, segs, cb, lk, reps):
         def text(rs):
-            return "\n".join('rule %s { strings: %s = "%s" condition: #%s >= %d }' % (n, sid, tok, sid[1:], k) for n, sid, tok, k in rs)
+            # consecutive entries with the same rule name are the strings of one rule
+            out, i = [], 0
+            while i < len(rs):
+                j = i
+                while j < len(rs) and rs[j][0] == rs[i][0]:
+                    j += 1
+                grp = rs[i:j]
+                out.append("rule %s { strings: %s condition: %s }" % (grp[0][0], " ".join('%s = "%s"' % (sid, tok) for _, sid, tok, _ in grp),
+                                                                   " and ".join("#%s >= %d" % (sid[1:], k) for _, sid, _, k in grp)))
+                i = j
+            return "\n".join(out)
         brules = [r for r in rules if r[0].startswith("b")]
         segs = [s for s in segs if s[1] > 0] or [("QRST", 1)]
         mmd = "" if lk == "" else " mmd=%d" % self.r.choice([0, 1, 3, 4, 5, 512, 70000])
@@ -543,7 +583,7 @@ class Gen:
 
     def all(self):
         self.ml(); self.fib(); self.regex(); self.loops(); self.idents(); self.intlits(); self.includes()
-        self.strings_per_rule(); self.stack(); self.set_timeout(); self.loop_stack(); self.fiber_reuse(); self.tmm_reuse(); self.block_timeouts(); self.matches()
+        self.strings_per_rule(); self.stack(); self.set_timeout(); self.loop_stack(); self.fiber_reuse(); self.tmm_reuse(); self.block_timeouts(); self.config_round_trip(); self.matches()
         return self.cases
 
 
